@@ -14,7 +14,7 @@ type raceReport struct {
 // newRaceReports reads what the race detector appended to its log file since
 // the last call and classifies each report: it counts for the property only if
 // both accesses are attributed to repository code (first frame that is not the
-// Go runtime/standard library or the simulator lies in github.com/mholt/caddy-l4).
+// Go runtime/standard library (or golang.org/x) or the simulator lies in github.com/mholt/caddy-l4).
 func newRaceReports(path string, off *int64) []raceReport {
 	b, err := os.ReadFile(path)
 	if err != nil || int64(len(b)) <= *off {
@@ -64,7 +64,9 @@ func newRaceReports(path string, off *int64) []raceReport {
 					sawAtomic = true
 					continue
 				}
-				if strings.HasPrefix(f, "runtime.") || strings.HasPrefix(f, "sync.") || strings.HasPrefix(f, "internal/") {
+				// standard library frames (import path whose first element has no dot), golang.org/x:
+				// the access happened inside a library object; whoever called into it is responsible
+				if isLibFrame(f) {
 					continue
 				}
 				if sawAtomic && (strings.HasPrefix(f, "verif/sim/worlds.") || strings.HasPrefix(f, "verif/sim/props.")) && skipped == 0 &&
@@ -103,4 +105,23 @@ func newRaceReports(path string, off *int64) []raceReport {
 		out = append(out, r)
 	}
 	return out
+}
+
+
+func isLibFrame(f string) bool {
+	if strings.HasPrefix(f, "verif/") {
+		return false // the harness
+	}
+	if strings.HasPrefix(f, "golang.org/x/") {
+		return true
+	}
+	first := f
+	if i := strings.IndexAny(f, "/.("); i >= 0 {
+		first = f[:i]
+		if f[i] == '/' {
+			return !strings.Contains(first, ".")
+		}
+	}
+	// no slash before the first dot: "runtime.foo", "sync.(*Mutex).Lock", "main.main"
+	return first != "main"
 }
